@@ -265,6 +265,25 @@ class DiskFile(VirtualFileContainer):
                 return False
         return True
 
+    def validate_allocation_table(self):
+        """
+        Raises a VirtualFileValidationError if the buffer does not hold a file allocation
+        table. The entry of every granule must be the free marker ($FF), a last granule
+        marker ($C0 - $C9), or the number of the next granule of the file, which is another
+        granule that is itself in use.
+        """
+        start = DiskConstants.FAT_OFFSET
+        total = DiskConstants.TOTAL_GRANULES
+        fat = self.buffer[start:start + total]
+        valid = len(fat) == total
+        for granule, entry in enumerate(fat):
+            if entry < total:
+                valid = valid and entry != granule and fat[entry] != 0xFF
+            else:
+                valid = valid and (0xC0 <= entry <= 0xC9 or entry == 0xFF)
+        if not valid:
+            raise VirtualFileValidationError("Disk image does not have a valid file allocation table")
+
     def list_files(self, filenames=None):
         if len(self.buffer) < DiskConstants.IMAGE_SIZE:
             raise VirtualFileValidationError("Disk image size is not {:,d} bytes long".format(DiskConstants.IMAGE_SIZE))
